@@ -836,6 +836,106 @@ Definition judge_gen (tolerant : bool) (sregs : list reg) (W : world) (ri : rinf
 Definition judge := judge_gen false.
 
 (* ------------------------------------------------------------------ *)
+(* THE RAISING SITE.  "When anything inside request handling raises an exception, the response is the one produced
+   by the exception view ...": what an ordinary view body raised must be what REACHES exception handling -- nothing
+   between the body and the excview tween (the candidate loop of _call_view, MultiView, the router, a subrequest's
+   own tween stack) may swallow it or answer in its place.  [site_walk] reads the ordinary view-body events of ONE
+   dispatch and the outcome [o] of that dispatch:
+   - a body that raised a PredicateMismatch is (documented) a predicate mismatch: the search may go on;
+   - a body that raised anything else is the LAST body of the dispatch and its object is the outcome;
+   - a body that returned a response is the last one and its response is the outcome;
+   - default_exceptionresponse_view as an ordinary view: silent. *)
+Fixpoint site_walk (W : world) (l : list event) (o : outcome) : bool :=
+  match l with
+  | [] => true
+  | EBody t _ _ :: r =>
+      match b_act (body_of (w_bodies W) t) with
+      | ARaise v =>
+          if isa W cn_PredicateMismatch v then site_walk W r o
+          else match r with [] => outcome_eqb o (Raise v) | _ => false end
+      | ARet => match r with [] => outcome_eqb o (Resp (RView t)) | _ => false end
+      | ARetCtx => true
+      end
+  | _ :: r => site_walk W r o
+  end.
+
+(* how the request was dispatched below the excview tween *)
+Inductive site_mode :=
+| SDirect                     (* one dispatch; its outcome is what reaches the excview tween *)
+| SCatch (thn : option N)     (* one dispatch inside try/except Exception: invoke_exception_view; then raise thn *)
+| SNoDispatch                 (* raised above the router: no view body may have run *)
+| SSilent.                    (* dispatched twice / a subrequest explicitly sent through the tweens: not judged *)
+Definition site_mode_of (u : under_prog) : site_mode :=
+  match u with UPass => SDirect | URaise _ => SNoDispatch | URetry => SSilent | UCatch _ _ _ thn => SCatch thn end.
+
+(* the ordinary view bodies before the first invoke_exception_view call, and the object that call rendered *)
+Fixpoint ords_until_iev (l : list event) (acc : list event) : list event * option N :=
+  match l with
+  | [] => (rev acc, None)
+  | EIev e _ _ _ :: _ => (rev acc, Some e)
+  | EBody t c s :: r =>
+      if N.eqb c ctx_resource then ords_until_iev r (EBody t c s :: acc) else ords_until_iev r acc
+  | _ :: r => ords_until_iev r acc
+  end.
+
+Definition judge_site (W : world) (m : site_mode) (evs : list event) : bool :=
+  match m with
+  | SSilent => true
+  | _ =>
+      match split_probe evs [] with
+      | None => false
+      | Some (pre, o1, _, _) =>
+          let '(ords, ie) := ords_until_iev pre [] in
+          match m with
+          | SSilent => true
+          | SNoDispatch => match ords with [] => true | _ => false end
+          | SDirect => site_walk W ords o1
+          | SCatch thn =>
+              match ie, thn with
+              | Some e, _ => site_walk W ords (Raise e)
+              | None, None => site_walk W ords o1
+              | None, Some _ => true
+              end
+          end
+      end
+  end.
+
+(* ------------------------------------------------------------------ *)
+(* A SUBREQUEST: the tween under the excview tween does not call its handler but
+       sub = <a fresh request for the same URL>;  return request.invoke_subrequest(sub [, use_tweens=ut])
+   Router.invoke_subrequest(request, use_tweens=False): without the tweens the subrequest goes straight to the main
+   handler (Router.handle_request) and what its view raises propagates into the caller -- here: up to the excview
+   tween of the OUTER request, which renders it for the outer request (never routed itself: [ri_under] of the outer
+   request is [URaise _], so request_iface / matchdict / context are those of an unrouted request).  With the tweens
+   the subrequest runs through its own excview tween first (the harness tweens pass a subrequest through).
+   The subrequest has its own attribute map (empty); its view bodies are observed on it. *)
+Definition set_under (ri : rinfo) (u : under_prog) (pre : option N) : rinfo :=
+  mkRI (ri_req ri) (ri_req2 ri) (ri_comb_sro ri) (ri_unrouted_sro ri) (ri_deny ri) (ri_root_raise ri) u pre.
+Definition sub_ri (ri : rinfo) : rinfo := set_under ri UPass None.
+
+Definition run_request_sub (W : world) (ri : rinfo) (tweens : bool)
+    (mh_sub : bool -> state -> outcome * state)
+    (xtw_sub xtw : outcome -> state -> outcome * state) : list event :=
+  let '(o, s1) := mh_sub false (mkSt [] []) in
+  let '(o', s2) := if tweens then xtw_sub o s1 else (o, s1) in
+  let st1 := mkSt (init_attrs ri) (st_log s2) in
+  let st1 := add_log st1 (EProbe o' (snap (st_attrs st1))) in
+  let '(o2, st2) := xtw o' st1 in
+  st_log st2 ++ [EFinal o2 (snap (st_attrs st2)) (aget hn_exception (st_attrs st2))].
+
+(* reference: built from the hand-written functions *)
+Definition run_request_sub_m (P : params) (W : world) (ri : rinfo) (tweens : bool) : list event :=
+  run_request_sub W ri tweens (main_handler_pm P W (sub_ri ri))
+    (excview_tween_g P W (fun _ => iev_pm P W (sub_ri ri)))
+    (excview_tween_g P W (fun _ => iev_pm P W ri)).
+
+(* use_tweens as given, or the default of the signature ([dflt]: regenerated fact; the documented value is false) *)
+Definition sub_tweens (dflt : bool) (ut : option bool) : bool := match ut with Some b => b | None => dflt end.
+(* the property's reading of the scenario: without use_tweens=True the subrequest is ONE plain dispatch *)
+Definition site_mode_sub (ut : option bool) : site_mode :=
+  match ut with Some true => SSilent | _ => SDirect end.
+
+(* ------------------------------------------------------------------ *)
 (* executable form of the premises of the lookup theorem (C03's key_order / key_faithful: registrations with the
    same slot and phash -- overrides -- have the same order and the same predicate texts; no phash collision),
    evaluated on every generated world so that the evidence says how often the theorem applies *)
